@@ -343,9 +343,18 @@ fn unsplit_pairs(report: &Report, tier: Tier, seed: u64) {
                 }
             }
         }
-        // exactly two bytes different: all position pairs, 3 values
+        // exactly two bytes different: all position pairs; two bytes swapped; +1 / -1 (sum-cancelling)
         for p in 0..40 {
             for q in (p + 1)..40 {
+                let mut k3 = *k;
+                k3.swap(p, q);
+                if k3 != *k {
+                    check(k, &k3, 0, 0);
+                }
+                let mut k4 = *k;
+                k4[p] = k4[p].wrapping_add(1);
+                k4[q] = k4[q].wrapping_sub(1);
+                check(k, &k4, 0, 0);
                 for d in [1u8, 0x80, 0xFF] {
                     let mut k2 = *k;
                     k2[p] ^= d;
